@@ -43,6 +43,7 @@ def dyOps : PyFun.PyFloatOps FV where
     | .val (.inf _) => .error "OverflowError"
     | .scale none => .ok 0
     | .scale (some j) => .ok (truncScaled 1 j)
+  ilog2 _ := .error "unmodelled"        -- `int(log(k, 2))` is not used by type_casts.py
 
 /-- the model's outcome as the Python outcome -/
 def errPy {α β : Type} (f : α → β) : Except Err α → Except String β
